@@ -582,6 +582,13 @@ class Evaluator(object):
             else:
                 name = a
             t = ("agg", a, name, tuple(self.operand(fid, body, env, x) for x in rv["ops"]), tuple(rv.get("fields", [])))
+            if a == "adt" and t[3] and len(t[4]) == len(t[3]):
+                # `X { a: v.a, b: v.b }` with every field taken from the same `v: X` is `v` again
+                first = t[3][0]
+                if isinstance(first, tuple) and first and first[0] == "field" and first[3] == rv["adt"] and not str(rv.get("variant", "")) == "" \
+                        and all(isinstance(o, tuple) and o and o[0] == "field" and o[1] == first[1] and o[2] == fn and o[3] == rv["adt"] for o, fn in zip(t[3], t[4])) \
+                        and self._single_variant(rv["adt"]) and first[1][0] != "variant":
+                    return first[1]
             if a == "adt" and rv.get("args"):
                 sb = self.subst.get(fid, {})
                 self.agg_targs.setdefault(t, set()).add(tuple(_subst_ty(x["s"], sb) for x in rv["args"] if x.get("k") == "ty"))
@@ -589,6 +596,10 @@ class Evaluator(object):
         if k == "repeat":
             return ("agg", "repeat", "repeat", (self.operand(fid, body, env, rv["op"]),), ())
         return ("const", "<%s>" % k)
+
+    def _single_variant(self, adt):
+        a = self.facts.adts.get(adt)
+        return bool(a and len(a.get("variants", [])) == 1 and str(a.get("kind", "")).lower() != "enum")
 
     def _cell_eligible(self, body, l):
         ty = body.locals[l]["ty"]
